@@ -20,6 +20,7 @@ import Driver.C18
 import Driver.C15
 import Driver.C20
 import Driver.C17
+import Driver.C19
 open Ws.Driver
 
 def dispatch (op : String) (args : List String) (obs : String) : String × String :=
@@ -60,6 +61,7 @@ def dispatch (op : String) (args : List String) (obs : String) : String × Strin
   | "fz" => c15fz args obs
   | "dialc" => c20dialc args obs
   | "ali" => c17ali args obs
+  | "conc" => c19conc args obs
   | "neg" => c14neg args obs
   | "popt" => c14popt args obs
   | "msb" => c13msb args obs
